@@ -103,7 +103,14 @@ def build_mesh(world):
     data.vertices += [list(p) for p in world["points"]]
     for e in world.get("declared_edges", []):
         data.edges.append(tuple(e))
-    data.faces += [list(f) for f in world["faces"]]
+    fl = world.get("flavour", "list")
+    if fl == "tuple":
+        data.faces += [tuple(f) for f in world["faces"]]
+    elif fl == "numpy":
+        import numpy as np
+        data.faces += [np.array(f) for f in world["faces"]]
+    else:
+        data.faces += [list(f) for f in world["faces"]]
     return M.mesh.SurfaceMesh(data)
 
 
@@ -172,7 +179,8 @@ class C01(Sim):
         if rng.chance(0.5):
             clients.append("background")
         fams = rng.subset(["ring", "corner", "lookup", "border"], 0.75, at_least=2)
-        return {"world": {"points": [[round(x, 6) for x in p] for p in pts], "faces": faces, "declared_edges": decl},
+        return {"world": {"points": [[round(x, 6) for x in p] for p in pts], "faces": faces, "declared_edges": decl,
+                          "flavour": rng.wchoice(["list", "tuple", "numpy"], [3, 1, 1])},
                 "sort": rng.chance(0.75), "clients": [c for c in clients if c in fams or c == "background"],
                 "max_steps": rng.randint(5, 40 if tier == "quick" else 80), "burst": rng.choice([0.2, 0.5, 0.8]),
                 "miss_rate": rng.choice([0.1, 0.3]), "drop_rate": rng.choice([0.05, 0.15, 0.3]),
